@@ -137,13 +137,25 @@ class FakeTransport(asyncio.DatagramTransport):
         self.net.sent(self, bytes(data), addr)
 
     def close(self):
+        if self.closed:
+            return
         self.closed = True
+        # like asyncio's datagram transports: the protocol is told on the next loop iteration
+        loop = self.net.loop
+        if loop is not None and not loop.is_closed():
+            loop.call_soon(self._connection_lost)
+
+    def _connection_lost(self):
+        try:
+            self.proto.connection_lost(None)
+        except AttributeError:
+            pass
 
     def is_closing(self):
         return self.closed
 
     def abort(self):
-        self.closed = True
+        self.close()
 
 
 class VLoop(asyncio.SelectorEventLoop):
